@@ -4888,10 +4888,20 @@ GRIgetaid(ri_info_t *ri_ptr, int acc_perm)
                     HGOTO_ERROR(DFE_BADAID, FAIL);
             }      /* end if */
             else { /* Use regular startaccess to create element */
+                int16 special = 0; /* special code of the image's element */
+
                 if ((ri_ptr->img_aid = Hstartaccess(hdf_file_id, ri_ptr->img_tag, ri_ptr->img_ref,
                                                     (uint32)acc_perm)) == FAIL)
                     HGOTO_ERROR(DFE_BADAID, FAIL);
-            }                       /* end else */
+
+                /* The coders only take sequential writes: regions of a stored
+                   compressed image are accessed through the buffered driver
+                   (the tag kept in the raster group never carries the special
+                   bit, so the element itself has to be asked) */
+                if (Hinquire(ri_ptr->img_aid, NULL, NULL, NULL, NULL, NULL, NULL, NULL, &special) != FAIL &&
+                    special == SPECIAL_COMP)
+                    ri_ptr->use_buf_drvr = 1;
+            } /* end else */
         }                           /* end else */
         if (ri_ptr->use_buf_drvr) { /* Convert to buffered special element if needed */
             if (HBconvert(ri_ptr->img_aid) == FAIL)
